@@ -4,6 +4,7 @@ CONSTANTS
   Depth = 2
   MinDepth = 0
   SynDepth = 2
+  Outer3 <- Contexts
   MaxIn = 3
 INVARIANTS TypeOK CleanupOnce HandlerFirstMatch NoneLost EscapeIntact FinalOK RejectedNeverRuns
 CHECK_DEADLOCK TRUE
